@@ -7,8 +7,8 @@ package main
 import (
 	"bytes"
 	"crypto/sha256"
-	"errors"
 	"encoding/hex"
+	"errors"
 	"fmt"
 	"sort"
 	"strings"
@@ -189,8 +189,10 @@ func (w *World) NewValidator(signedFork bool) validation.MessageValidator {
 	return validation.NewMessageValidator(cfg, validation.WithNodeStorage(w.NS), validation.WithDutyStore(w.Duties))
 }
 
-func (w *World) SlotStart(slot uint64) time.Time { return w.NetCfg.Beacon.GetSlotStartTime(phase0.Slot(slot)) }
-func (w *World) SetClock(t time.Time)            { *w.clock = t.Unix() }
+func (w *World) SlotStart(slot uint64) time.Time {
+	return w.NetCfg.Beacon.GetSlotStartTime(phase0.Slot(slot))
+}
+func (w *World) SetClock(t time.Time) { *w.clock = t.Unix() }
 
 func b2i(b bool) int {
 	if b {
